@@ -378,6 +378,22 @@ pub fn check(tier: Tier) -> i32 {
     // Tier C: random long strings and lists, with shrinking (in-process + bash).
     drive(&ctx, "random", tier.pick(12000, 100000), || proptest::collection::vec(arg_strategy(40), 1..4), run_case);
     drive(&ctx, "long", tier.pick(3000, 20000), || proptest::collection::vec(arg_strategy(300), 1..2), run_case);
+    // the same under the C locale (cron, minimal containers): quoting and splitting are byte-exact
+    // whatever LC_ALL / LANG say; bash inherits the locale. (No worker thread is alive between two
+    // drives, so changing the environment of this process here is race-free.)
+    {
+        let saved: Vec<(&str, Option<std::ffi::OsString>)> = ["LC_ALL", "LC_CTYPE", "LANG"].iter().map(|k| (*k, std::env::var_os(k))).collect();
+        std::env::set_var("LC_ALL", "C");
+        std::env::set_var("LANG", "C");
+        std::env::remove_var("LC_CTYPE");
+        drive(&ctx, "random-c-locale", tier.pick(4000, 30000), || proptest::collection::vec(arg_strategy(40), 1..4), run_case);
+        for (k, v) in saved {
+            match v {
+                Some(v) => std::env::set_var(k, v),
+                None => std::env::remove_var(k),
+            }
+        }
+    }
 
     // Clause (5): split never panics on arbitrary text.
     let text = || proptest::collection::vec(
@@ -400,7 +416,7 @@ pub fn check(tier: Tier) -> i32 {
 
     ctx.finish(
         "exploration",
-        "bounded-exhaustive: every string of <=3 (quick) / <=4 (thorough) symbols over the 20-symbol alphabet through quote->split, quote->bash, Path::quote->bash; every list of <=2 (quick, plus strided triples) / <=3 (thorough) strings of <=2 symbols through join->split; random strings up to 300 symbols and lists of up to 3 through all oracles with shrinking; random text through split. Non-trivial = at least one argument whose quoted form differs from the raw bytes; distinct by construction (enumeration) or by case digest (random).",
+        "bounded-exhaustive: every string of <=3 (quick) / <=4 (thorough) symbols over the 20-symbol alphabet through quote->split, quote->bash, Path::quote->bash; every list of <=2 (quick, plus strided triples) / <=3 (thorough) strings of <=2 symbols through join->split; random strings up to 300 symbols and lists of up to 3 through all oracles with shrinking, a part of them with LC_ALL=C LANG=C for this process and for bash; random text through split. Non-trivial = at least one argument whose quoted form differs from the raw bytes; distinct by construction (enumeration) or by case digest (random).",
         &["bash 5.x found on PATH is the reference shell decoder", "arguments are non-empty and NUL-free"],
     )
 }
